@@ -111,6 +111,10 @@ def conf_server(item):
     except Livelock as exc:
         viol.append(('livelock', str(exc)))
         acc.add(core.digest((cfg, 'err')))
+    except (asyncssh.Error, OSError) as exc:
+        # asyncssh refused what the independent implementation sent (or failed on its own output)
+        viol.append(('asyncssh-reject', repr(exc)))
+        acc.add(core.digest((cfg, 'err')))
     finally:
         w.close()
     for k, d in viol:
@@ -168,6 +172,10 @@ def conf_client(item):
         acc.add(core.digest((cfg, 'err')))
     except Livelock as exc:
         viol.append(('livelock', str(exc)))
+        acc.add(core.digest((cfg, 'err')))
+    except (asyncssh.Error, OSError) as exc:
+        # asyncssh refused what the independent implementation sent (or failed on its own output)
+        viol.append(('asyncssh-reject', repr(exc)))
         acc.add(core.digest((cfg, 'err')))
     finally:
         w.close()
